@@ -31,6 +31,8 @@ struct Case {
 fn garble(bytes: &[u8], salt: u64, what: u8) -> Vec<u8> {
     // what = 0: every payload byte arbitrary (layout kept: slot padding of format 0 stays zero, 0xFF tail kept)
     // what = 1: non-framing header bytes arbitrary as well
+    // what = 2: as 1, and the memory size of every second packet is smaller than the offset to the next RDH (a page
+    //           followed by filler up to the next header; only for the modes that step over payloads by the offset)
     let (walked, _) = fp_model::stream::walk(bytes);
     let mut out = bytes.to_vec();
     for w in &walked {
@@ -51,7 +53,7 @@ fn garble(bytes: &[u8], salt: u64, what: u8) -> Vec<u8> {
                 out[p0 + i * slot + j] = b;
             }
         }
-        if what == 1 {
+        if what >= 1 {
             let o = w.offset as usize;
             for j in 0..64 {
                 // keep: FEE id (2,3 -> dispatch), offset/memory size (8..12), link (12), data format (24)
@@ -59,6 +61,10 @@ fn garble(bytes: &[u8], salt: u64, what: u8) -> Vec<u8> {
                     continue;
                 }
                 out[o + j] = (fnv(&[salt.to_le_bytes().as_slice(), &(o as u32 + j as u32).to_le_bytes(), &[7]].concat()) >> 17) as u8;
+            }
+            if what == 2 && (w.offset / 16) % 2 == 1 && w.rdh.offset_next > 64 {
+                let ms = 64 + (w.rdh.offset_next - 64) / 2;
+                out[o + 10..o + 12].copy_from_slice(&ms.to_le_bytes());
             }
         }
     }
@@ -140,9 +146,12 @@ pub fn run(tier: Tier) -> i32 {
         }
         let salts: Vec<u64> = if tier.is_thorough() { (0..24).collect() } else { (0..6).collect() };
         for salt in salts {
-            for what in [0u8, 1] {
+            for what in [0u8, 1, 2] {
+                if what == 2 && w.stave {
+                    continue;
+                }
                 let bytes = Arc::new(garble(&base, salt, what));
-                let modes: Vec<Mode> = if w.stave { vec![Mode::AllStave] } else { vec![Mode::Sanity, Mode::SanityIts, Mode::All, Mode::AllIts] };
+                let modes: Vec<Mode> = if w.stave { vec![Mode::AllStave] } else if what == 2 { vec![Mode::Sanity, Mode::All] } else { vec![Mode::Sanity, Mode::SanityIts, Mode::All, Mode::AllIts] };
                 for mode in modes {
                     for f in &filters {
                         for pipe in [false, true] {
@@ -159,7 +168,7 @@ pub fn run(tier: Tier) -> i32 {
                         for pipe in [false, true] {
                             let mode = if w.stave { Mode::AllStave } else { Mode::AllIts };
                             // the CLI needs a recognisable first RDH: header garbling (kind 1) keeps bytes 0..3 but not 4..7
-                            if what == 1 {
+                            if what >= 1 {
                                 continue;
                             }
                             cases.push(Case { label: format!("CLI {} garbled salt {salt}", w.name), bytes: bytes.clone(), mode, filter: *f, pipe, cli: true });
